@@ -52,6 +52,10 @@ struct simos_hooks {
     int (*mutex_trylock_)(pthread_mutex_t *);
     int (*mutex_unlock_)(pthread_mutex_t *);
     int (*mutex_timedlock_)(pthread_mutex_t *, const struct timespec *);
+    /* process-wide kernel state: what = 0 rlimit, 1 signal disposition, 2 umask; arg = resource / signal number */
+    void (*process_state_)(int what, int arg, int is_write);
+    int (*getrlimit_)(int, void *);          /* struct rlimit *; if set, replaces the real call */
+    int (*setrlimit_)(int, const void *);
     int (*nanosleep_)(const struct timespec *, struct timespec *);
     /* other ambient sources of nondeterminism the tree does not use today; wrapped so that a
      * change which starts using one is under the simulator's control (C18 side-channel check) */
